@@ -706,9 +706,16 @@ def crash_attribution(ctx, verdict, states, cases, parsed):
     missing = [c for c in cases if parsed.get(c['id'], (None, None))[0] is None]
     if not missing or len(missing) == len(cases):
         return False
-    c = missing[0]
-    rc1, log1, parsed1, _, _, _, _ = run_cases(ctx, {c['st']: states[c['st']]}, [c], 'crash')
-    if rc1 == 0 or parsed1.get(c['id'], (None, None))[0] is not None:
+    # a stray goroutine may die a moment after its case has reported: try the first case without a line, then the
+    # three before it, each alone (the driver lingers 30 ms at the end of a run so that such a goroutine gets to run)
+    k = cases.index(missing[0])
+    c = None
+    for cand in [cases[k]] + cases[max(0, k - 3):k][::-1]:
+        rc1, log1, parsed1, _, _, _, _ = run_cases(ctx, {cand['st']: states[cand['st']]}, [cand], 'crash')
+        if rc1 != 0 and ('panic:' in log1 or 'fatal error' in log1):
+            c = cand
+            break
+    if c is None:
         return False
     tail = [ln for ln in log1.splitlines() if ln.startswith(('panic:', 'goroutine ', '\t/repo', 'github.com/cbeuw/Cloak')) or '[signal' in ln][:14]
     verdict.oracle_failure('server-crash', 'C09 oracle [server-crash]: the server process died while handling this connection (panic outside every recover): %s '
